@@ -108,3 +108,8 @@ SEEDS = [
 	}
 	parts, err := readPartitionArrayBytes(b2, int(gptTable.partitionEntrySize), logicalBlockSize, physicalBlockSize)''')]},
 ]
+
+SEEDS += [
+ {"name": "c09-validated-backup-rejected", "properties": ["C09"], "expect": "C09-g|",
+  "edits": [e("	gptTable.RecoveredFromBackup = true\n	return gptTable, nil", "	if len(gptTable.Partitions) == 0 {\n		return nil, fmt.Errorf(\"backup GPT lists no partitions\")\n	}\n	gptTable.RecoveredFromBackup = true\n	return gptTable, nil")]},
+]
